@@ -33,7 +33,13 @@ TRUSTED = [
     'not modelled: the XML parser, _flatten/_apply_directives (the generator flattens its own template description: '
     'py:for unrolled, data streams and included files spliced, py:match registrations in place), _include and the loader, the serializer',
     'theorems are parametric in an abstract matcher (state, step; laws: an END undoes its START, updateonly is not read); '
-    'GenericStrategy paths with positional predicates reach the real code in the oracle streams but have no Lean matcher',
+    'the parameter is discharged with the C05/C17 path model (Model/MatchReal.lean, modelled not verified, tied by the streams '
+    'match-real and match-xspec): FlagFree for every path, Lawful up to simulation for paths without position tests; '
+    'positional predicates are covered by the model and the correspondence, by no tree-rewrite theorem',
+    'the XPath reading of a match path is proved for GenericStrategy (C05 pattern_matches_eq_xp) and SingleStepStrategy (C17 '
+    'single_eq_generic); for SimplePathStrategy in pattern mode it is tied by match-xspec and the rref oracle only',
+    'the location form of the specification (xpForest/patternSel, driver verb xspec) is tied to the code by correspondence, '
+    'not proved equal to the marks form (mkKids/patternMarks) in Lean',
     'the forest parser of the driver verb `tree` (specification vs code) is unverified plumbing',
     'the push-style (automaton) reading of the generator pipeline for buffer="false" is validated by correspondence, not proved equal to Python generator semantics',
 ]
@@ -46,6 +52,11 @@ ASSUMPTIONS = [
     'xi:include (both loader modes) only as a child of the root: a run-time include inside a matched element is the '
     'known finding C12-include-in-match',
     'bodies are literal markup plus select() calls; buffer="false" only with at most one select() (documented requirement)',
+    'real-matcher class: documents with unprefixed names and attributes n, m; match paths without variables; the reference '
+    'oracles (rref, match-xspec) use the structured sub-grammar (names/*, child, descendant::, //, [@a], [@a="v"], [not(@a)], '
+    'unions), where genshi\'s predicate values are XPath\'s (outside it the recorded C05 findings apply)',
+    'repeat oracle: every rendering of one template object must equal the first one (whatever the absolute semantics of a '
+    'positional first step, finding C17-pattern-first-step-position)',
 ]
 
 FUEL = 400000
